@@ -27,7 +27,9 @@ fn obs_of(out: &sl::Outcome) -> Obs {
 /// The message body must match exactly; only the rendering of `opaque(...)` wrappers inside quoted
 /// source excerpts is not part of a message (messages never quote source, so nothing is stripped).
 fn normalize_msg(m: &str) -> String {
-    m.trim().to_owned()
+    // Binding errors name the function as `<module file>.<name>`; the variants live in files with different names
+    // (m.star, a.star, b.star) - an artefact of this harness, not of the optimiser.
+    m.trim().replace("m.star.", "").replace("a.star.", "").replace("b.star.", "")
 }
 
 fn run_module(src: &str) -> Obs {
@@ -70,13 +72,43 @@ fn run_frozen(wrapped_def: &str, host_call: bool) -> Obs {
 /// Splits a program at a top-level statement boundary: module A (prefix, frozen) and module B (rest, loads every
 /// public name of A). Returns None when B rebinds or mutates something A defines (then the two-module program
 /// legitimately differs: frozen values cannot be mutated and loaded names are separate bindings).
-fn run_split(plain: &str, cut_choice: u32) -> Option<Obs> {
+fn stmt_starts(plain: &str) -> Vec<usize> {
+    plain.lines().enumerate().filter(|(_, l)| !l.is_empty() && !l.starts_with(' ') && !l.starts_with("elif ") && !l.starts_with("else:")).map(|x| x.0).collect()
+}
+
+/// Cut points right after a top-level `def` whose name is used by the next top-level statement (the split then puts the
+/// def into the frozen module and its call sites into the loading one: the configuration in which call sites see a
+/// frozen callee at compile time).
+fn cuts_after_defs(plain: &str) -> Vec<usize> {
     let lines: Vec<&str> = plain.lines().collect();
-    let starts: Vec<usize> = lines.iter().enumerate().filter(|(_, l)| !l.is_empty() && !l.starts_with(' ') && !l.starts_with("elif ") && !l.starts_with("else:")).map(|x| x.0).collect();
+    let starts = stmt_starts(plain);
+    let mut out = Vec::new();
+    for w in starts.windows(2) {
+        let (a, b) = (w[0], w[1]);
+        if let Some(rest) = lines[a].strip_prefix("def ") {
+            let name = rest.split('(').next().unwrap_or("");
+            if !name.is_empty() && lines[b].contains(&format!("{name}(")) && !lines[b].starts_with("def ") {
+                out.push(b);
+            }
+        }
+    }
+    out
+}
+
+fn run_split(plain: &str, cut_choice: u32) -> Option<Obs> {
+    let starts = stmt_starts(plain);
     if starts.len() < 3 {
         return None;
     }
     let cut = starts[1 + ((cut_choice as u64 * (starts.len() as u64 - 2)) >> 32) as usize];
+    run_split_at(plain, cut)
+}
+
+fn run_split_at(plain: &str, cut: usize) -> Option<Obs> {
+    let lines: Vec<&str> = plain.lines().collect();
+    if cut == 0 || cut >= lines.len() {
+        return None;
+    }
     let a_src = lines[..cut].join("\n") + "\n";
     let b_body = lines[cut..].join("\n") + "\n";
     let cfg = sl::RunCfg::default();
@@ -125,10 +157,168 @@ fn run_split(plain: &str, cut_choice: u32) -> Option<Obs> {
     let load = if names.is_empty() { String::new() } else { format!("load(\"a.star\", {})\n", names.iter().map(|n| format!("\"{n}\"")).collect::<Vec<_>>().join(", ")) };
     let b_out = sl::run_src("b.star", &format!("{load}{b_body}"), &cfg, &[("a.star", &fm)]);
     let mut o = obs_of(&b_out);
+    // A def of A that mutates one of its own default values (or a global of A) works while A is unfrozen and fails once A
+    // is frozen: documented freeze semantics (C04), not an optimisation. Such a split is not comparable.
+    if o.msg.contains("Immutable") || o.msg.contains("frozen") {
+        return None;
+    }
     let mut tx = a_out.tx.clone();
     tx.extend(o.tx);
     o.tx = tx;
     Some(o)
+}
+
+
+// ---- enumerated inlining table -------------------------------------------------------------------------------
+// Every signature over <= 2 named parameters (each positional-only / positional-or-keyword / keyword-only, with or
+// without a default, optionally *args and **kwargs) x every optimiser-shaped body x a table of call shapes (0..3
+// positional, named subsets, a foreign name, *seq, **map). The defs live in a frozen module; each call is issued twice
+// in the loading module, once naming the callee (the optimiser sees a frozen def and may inline it) and once through
+// opaque(callee): the two must give the same ("ok", value) or ("err", kind).
+
+const INLINE_BODIES: &[&str] = &[
+    "return type(P0) == \"int\"",
+    "return type(P0) == \"string\"",
+    "return P0",
+    "return (PALL,)",
+    "return [PL, 7]",
+    "return P0 + 1",
+    "return PL if P0 else 0",
+    "pass",
+    "return \"%s|%s\" % (P0, PL)",
+    "return {\"k\": P0}",
+    "return P0[0]",
+    "return len(P0)",
+    "return P0 == PL",
+    "return not P0",
+];
+
+fn inline_signatures() -> Vec<(String, Vec<String>)> {
+    // kinds: 0 = positional-only, 1 = positional-or-keyword, 2 = keyword-only
+    let mut out = Vec::new();
+    for np in 1..=2usize {
+        let nk = 3usize.pow(np as u32);
+        for kinds_code in 0..nk {
+            let kinds: Vec<usize> = (0..np).map(|i| (kinds_code / 3usize.pow(i as u32)) % 3).collect();
+            if kinds.windows(2).any(|w| w[0] > w[1]) {
+                continue; // kinds must be non-decreasing: pos-only, then normal, then kw-only
+            }
+            for defaults in 0..(1 << np) {
+                for extra in 0..4 {
+                    let (star_args, kwargs) = (extra & 1 == 1, extra & 2 == 2);
+                    let names: Vec<String> = (0..np).map(|i| format!("p{i}")).collect();
+                    let mut sig: Vec<String> = Vec::new();
+                    let mut seen_default_positional = false;
+                    let mut ok = true;
+                    let mut star_written = false;
+                    for i in 0..np {
+                        if kinds[i] == 2 && !star_written {
+                            sig.push(if star_args { "*rest".to_owned() } else { "*".to_owned() });
+                            star_written = true;
+                        }
+                        let has_default = defaults >> i & 1 == 1;
+                        if kinds[i] < 2 {
+                            if has_default {
+                                seen_default_positional = true;
+                            } else if seen_default_positional {
+                                ok = false;
+                            }
+                        }
+                        sig.push(if has_default { format!("p{i} = {}", 100 + i) } else { format!("p{i}") });
+                        if kinds[i] == 0 && (i + 1 == np || kinds[i + 1] != 0) {
+                            sig.push("/".to_owned());
+                        }
+                    }
+                    if !ok {
+                        continue;
+                    }
+                    if star_args && !star_written {
+                        sig.push("*rest".to_owned());
+                    }
+                    if kwargs {
+                        sig.push("**kw".to_owned());
+                    }
+                    out.push((sig.join(", "), names));
+                }
+            }
+        }
+    }
+    out
+}
+
+fn inline_calls(names: &[String]) -> Vec<String> {
+    let mut out = Vec::new();
+    for npos in 0..=3usize {
+        let pos: Vec<String> = (0..npos).map(|i| format!("{}", 1 + i)).collect();
+        for named_mask in 0..(1u32 << names.len()) {
+            let mut args = pos.clone();
+            for (i, n) in names.iter().enumerate() {
+                if named_mask >> i & 1 == 1 {
+                    args.push(format!("{n} = {}", 11 + i));
+                }
+            }
+            out.push(args.join(", "));
+            if npos <= 1 {
+                let mut a2 = args.clone();
+                a2.push("zz = 55".to_owned());
+                out.push(a2.join(", "));
+                let mut a3 = args.clone();
+                a3.push("*[21, 22]".to_owned());
+                out.push(a3.join(", "));
+                let mut a4 = args.clone();
+                a4.push(format!("**{{\"{}\": 31}}", names.last().unwrap()));
+                out.push(a4.join(", "));
+            }
+        }
+    }
+    out.push("\"s\"".to_owned());
+    out.push("[5]".to_owned());
+    out.push("None".to_owned());
+    out
+}
+
+fn check_inline_signature(sig: &str, names: &[String]) -> CaseResult {
+    let p0 = names[0].clone();
+    let pl = names.last().unwrap().clone();
+    let pall = names.join(", ");
+    let mut a = String::new();
+    for (bi, b) in INLINE_BODIES.iter().enumerate() {
+        let body = b.replace("PALL", &pall).replace("P0", &p0).replace("PL", &pl);
+        a.push_str(&format!("def f{bi}({sig}):\n    {body}\n"));
+    }
+    let calls = inline_calls(names);
+    let fnames: Vec<String> = (0..INLINE_BODIES.len()).map(|i| format!("\"f{i}\"")).collect();
+    let mut b = format!("load(\"a.star\", {})\n", fnames.join(", "));
+    for bi in 0..INLINE_BODIES.len() {
+        for c in &calls {
+            b.push_str(&format!("emit(catch(lambda: f{bi}({c})))\nemit(catch(lambda: opaque(f{bi})({c})))\n"));
+        }
+    }
+    let mut r = CaseResult::new(format!("[inlining table] def f({sig}) x {} bodies x {} calls", INLINE_BODIES.len(), calls.len()));
+    let cfg = sl::RunCfg::default();
+    let (a_out, fm) = sl::run_and_freeze("a.star", &a, &cfg, &[]);
+    let Some(fm) = fm else {
+        r.fail("generator-bug", format!("inlining table: defining module failed: {:?}\n{a}", a_out.result.err().map(|e| e.msg)));
+        return r;
+    };
+    let out = sl::run_src("b.star", &b, &cfg, &[("a.star", &fm)]);
+    if let Err(e) = &out.result {
+        r.fail("generator-bug", format!("inlining table: calling module failed: {}\n{b}", e.msg));
+        return r;
+    }
+    r.evals = out.tx.len() as u64;
+    let mut k = 0;
+    for bi in 0..INLINE_BODIES.len() {
+        for c in &calls {
+            let (vis, hid) = (out.tx.get(k), out.tx.get(k + 1));
+            k += 2;
+            if vis != hid {
+                r.fail("opt-transcript", format!("def f({sig}): {} called as f({c}) from a module that loaded the frozen def gives {:?}; through opaque(f) it gives {:?}", INLINE_BODIES[bi], vis, hid));
+            }
+            r.nontrivial.push(fnv(format!("{sig}|{bi}|{c}").as_bytes()));
+        }
+    }
+    r
 }
 
 fn def_only(plain: &str) -> String {
@@ -188,16 +378,22 @@ impl Prop for C02 {
                 sink(check_program(&marked, &[], &picks, "[fixed program] ", mask.wrapping_mul(0x9E37_79B9)));
             }
         }
+        for (i, (sig, names)) in inline_signatures().iter().enumerate() {
+            if i % ctx.workers != ctx.worker {
+                continue;
+            }
+            sink(check_inline_signature(sig, names));
+        }
     }
     fn render(&self, _ctx: &mut Ctx, ch: &mut Choices) -> String {
         let no_mutation = ch.bool();
-        let opts = prog::Opts { profile: prog::Profile::Full, fail_pct: 30, no_mutation, ..Default::default() };
+        let opts = prog::Opts { profile: prog::Profile::Full, fail_pct: 30, no_mutation, inline_probes: true, ..Default::default() };
         let mut g = prog::Gen::new(ch, opts);
         prog::render_plain(&g.program())
     }
     fn run(&self, _ctx: &mut Ctx, ch: &mut Choices) -> CaseResult {
         let no_mutation = ch.bool();
-        let opts = prog::Opts { profile: prog::Profile::Full, fail_pct: 30, no_mutation, ..Default::default() };
+        let opts = prog::Opts { profile: prog::Profile::Full, fail_pct: 30, no_mutation, inline_probes: true, ..Default::default() };
         let mut g = prog::Gen::new(ch, opts);
         let marked = g.program();
         let labels = g.labels.clone();
@@ -258,6 +454,15 @@ fn check_program(marked: &str, labels: &[&'static str], picks: &[bool], prefix: 
         }
         if let Some(o) = split_full {
             variants.push(("fully opaque: prefix in a frozen module, rest in a module that loads it", o, &full));
+        }
+        // and at (up to three) boundaries right after a def that the next statement calls
+        let def_cuts = cuts_after_defs(&plain);
+        let pick_from = if def_cuts.len() > 3 { (cut as usize) % (def_cuts.len() - 2) } else { 0 };
+        for c in def_cuts.iter().skip(pick_from).take(3) {
+            if let Some(o) = run_split_at(&plain, *c) {
+                r.label("split_after_def");
+                variants.push(("defs in a frozen module, their call sites in a module that loads it", o, &plain));
+            }
         }
         r.evals = 1 + variants.len() as u64;
         for (name, o, text) in &variants {
